@@ -339,7 +339,126 @@ pub fn run1(src: &str, binds: &[(String, CelValue)]) -> Out {
         Ok(p) => p,
         Err(o) => return o,
     };
-    run_prog(&prog, binds)
+    let out = run_prog(&prog, binds);
+    reach_check(src, binds, &prog, &out);
+    out
+}
+
+// ------------------------------------------------------------------------------------------
+// position invariance: the same expression reached through another construct
+
+/// State of the position-invariance monitor (per worker thread). Enabled per property by `Ctx`.
+pub struct Reach {
+    pub enabled: bool,
+    pub period: u64,
+    calls: u64,
+    busy: bool,
+    pub checked: u64,
+    pub variants_run: u64,
+    pub pending: Vec<(String, String, Value)>,
+}
+
+thread_local! {
+    pub static REACH: std::cell::RefCell<Reach> = std::cell::RefCell::new(Reach { enabled: false, period: 12, calls: 0, busy: false, checked: 0, variants_run: 0, pending: Vec::new() });
+}
+
+fn bracket_depth(s: &str) -> usize {
+    let (mut d, mut m) = (0usize, 0usize);
+    for c in s.chars() {
+        match c {
+            '(' | '[' | '{' => {
+                d += 1;
+                m = m.max(d);
+            }
+            ')' | ']' | '}' => d = d.saturating_sub(1),
+            _ => {}
+        }
+    }
+    m
+}
+
+/// Every `period`-th evaluation that went through `run1` is repeated with the expression standing in
+/// other positions - parenthesised, list element, map value, ternary branch, macro body over a literal
+/// list (which the compiler may try to fold), behind `dyn()`, as a stored program referenced by name,
+/// and executed a second time in one context. A value must come out bit-identical, a failure must stay
+/// a failure. Sources near the nesting / call-depth limits and time-dependent sources are left alone.
+fn reach_check(src: &str, binds: &[(String, CelValue)], prog: &Program, out: &Out) {
+    let go = REACH.with(|r| {
+        let mut r = r.borrow_mut();
+        if !r.enabled || r.busy {
+            return false;
+        }
+        r.calls += 1;
+        r.calls % r.period == 0
+    });
+    if !go || out.is_panic() || src.len() > 400 || bracket_depth(src) > 8 || src.contains("now") || src.contains("timestamp()") || src.contains("zz_") {
+        return;
+    }
+    REACH.with(|r| r.borrow_mut().busy = true);
+    let want = out.canon_anyerr();
+    let mut found: Vec<(String, String, Value)> = Vec::new();
+    let mut nvar = 0u64;
+    {
+        let mut judge = |name: &str, text: &str, got: Out| {
+            nvar += 1;
+            if got.canon_anyerr() != want {
+                let class = match (out, &got) {
+                    (_, Out::Panic(..)) => "panic",
+                    (Out::Val(_), Out::Val(_)) => "different-values",
+                    (Out::Val(_), _) => "value-becomes-failure",
+                    _ => "failure-becomes-value",
+                };
+                found.push((
+                    format!("reach|{}|{}", name, class),
+                    format!("`{}` gives {} but `{}` gives {} (bindings {})", clip(src, 300), out.show(), clip(text, 400), got.show(), binds_json(binds)),
+                    json!({"source": src, "variant": text, "bindings": binds_json(binds)}),
+                ));
+            }
+        };
+        let wrapped: [(&str, String); 7] = [
+            ("parenthesised", format!("({})", src)),
+            ("list-element", format!("[({})][0]", src)),
+            ("map-value", format!("{{'k': ({})}}.k", src)),
+            ("ternary-branch", format!("true ? ({}) : 0", src)),
+            ("macro-body", format!("[0].map(zz_i, ({}))[0]", src)),
+            ("dyn", format!("dyn(({}))", src)),
+            ("nested-list-map", format!("{{'k': [({})]}}['k'][0]", src)),
+        ];
+        for (name, text) in wrapped.iter() {
+            let got = match compile(text) {
+                Ok(p) => run_prog(&p, binds),
+                Err(o) => o,
+            };
+            judge(name, text, got);
+        }
+        // as a stored program referenced by name, under the same bindings
+        {
+            let mut c = CelContext::new();
+            c.add_program("zz_p", prog.clone());
+            let got = match catch(|| c.add_program_str("main", "zz_p")) {
+                Ok(Ok(())) => exec_prog(&mut c, "main", &bind_ctx(binds)),
+                Ok(Err(e)) => Out::Err(e),
+                Err((m, l)) => Out::Panic(m, l),
+            };
+            judge("stored-program", "zz_p  (zz_p = the source)", got);
+        }
+        // the second execution in one context
+        {
+            let mut c = CelContext::new();
+            c.add_program("main", prog.clone());
+            let b = bind_ctx(binds);
+            let _ = exec_prog(&mut c, "main", &b);
+            let got = exec_prog(&mut c, "main", &b);
+            judge("second-execution", src, got);
+        }
+    }
+    REACH.with(|r| {
+        let mut r = r.borrow_mut();
+        r.busy = false;
+        r.checked += 1;
+        r.variants_run += nvar;
+        r.pending.extend(found);
+    });
 }
 
 pub fn run_prog(prog: &Program, binds: &[(String, CelValue)]) -> Out {
@@ -580,6 +699,14 @@ impl Ctx {
                 .open(p)
                 .expect("open journal")
         });
+        // the position-invariance monitor rides on every property whose workload evaluates plain expressions through
+        // run1 (not on C01 / C12, which probe the nesting and depth limits the wrappers would push against)
+        let reach_on = matches!(prop, "C02" | "C03" | "C04" | "C05" | "C06" | "C07" | "C08" | "C09" | "C13" | "C14" | "C15" | "C16") && std::env::var("RVMON_NO_REACH").is_err();
+        REACH.with(|r| {
+            let mut r = r.borrow_mut();
+            r.enabled = reach_on;
+            r.period = std::env::var("RVMON_REACH_PERIOD").ok().and_then(|v| v.parse().ok()).unwrap_or(12);
+        });
         Ctx {
             prop: prop.to_string(),
             seed,
@@ -640,6 +767,25 @@ impl Ctx {
 
     /// like `stage`, but counters are flushed after every case (for stages whose cases may kill
     /// the process)
+    /// move what the position-invariance monitor found during the last case into the report
+    fn drain_reach(&mut self) {
+        let (pending, checked, variants) = REACH.with(|r| {
+            let mut r = r.borrow_mut();
+            let p = std::mem::take(&mut r.pending);
+            let c = std::mem::take(&mut r.checked);
+            let v = std::mem::take(&mut r.variants_run);
+            (p, c, v)
+        });
+        if checked > 0 {
+            self.rep.add("reach_sources_rechecked", checked);
+            self.rep.add("reach_variants_evaluated", variants);
+            self.rep.evals += variants;
+        }
+        for (sig, detail, case) in pending {
+            self.rep.viol(&sig, &detail, case);
+        }
+    }
+
     pub fn stage_each<F>(&mut self, name: &str, total: u64, seeded: bool, f: F)
     where
         F: FnMut(u64, &mut Rng, &mut Rep),
@@ -689,6 +835,7 @@ impl Ctx {
                 self.rep.journal_write(ord, name, only_idx, "");
                 let mut rng = Rng::new(mix(&[seed, stage_h, only_idx]));
                 f(only_idx, &mut rng, &mut self.rep);
+                self.drain_reach();
                 self.rep.digest_case_end(ord, only_idx);
             }
             return;
@@ -700,6 +847,7 @@ impl Ctx {
             let mut rng = Rng::new(mix(&[seed, stage_h, idx]));
             let t0 = std::time::Instant::now();
             f(idx, &mut rng, &mut self.rep);
+            self.drain_reach();
             let dt = t0.elapsed().as_secs_f64();
             if dt > 1.0 {
                 // evidence only: which cases dominate the run time (never a verdict)
